@@ -10,4 +10,5 @@ Separate Extraction
   escape unescape forbidden
   xrop xrval xrstep read_flag_plain
   fop fsw run_fsw fstep finit fbytes foff ferr
-  bop bw run_bw bstep binit bbytes berr brev.
+  bop bw run_bw bstep binit bbytes berr brev
+  wx xinit xout xs xerr wxstep wxstep_plain run_wx run_wx_plain read_se64 read_signed64.
